@@ -240,7 +240,12 @@ def plainItemRes (W : World) (rec : PlainRec) (env : Env) (st : PSt) (results : 
     | none => (.error (.dds .objectNotFound), st)
     | some g => match bindRun g.params (zipArgs results env args rtA) (zipKw results env kwargs rtK) 0 with
       | none => (.error (.exc "TypeError" f), st)
-      | some env' => rec st g env'
+      | some env' =>
+        match rec st g env' with
+        | (.ok v, st') => (.ok v, match g.storePath with
+            | some p => { st' with kept := aset st'.kept p v }
+            | none => st')
+        | r => r
   | .keep path f args kwargs rtA rtK _ =>
     match W.find f with
     | none => (.error (.dds .objectNotFound), st)
@@ -318,7 +323,7 @@ theorem plainItemRes_callArgs (W : World) (rec : PlainRec) (env : Env) (st : PSt
     simp only []
     cases bindRun g.params (zipArgs results env args rtA) (zipKw results env kwargs rtK) 0 with
     | none => rfl
-    | some env' => rfl
+    | some env' => exact fst_keep_update _ _
 
 theorem plainItemRes_keep (W : World) (rec : PlainRec) (env : Env) (st : PSt) (results : List RVal) (path f : String)
     (args kwargs rtA rtK) (l : Nat) :
@@ -500,7 +505,7 @@ theorem plainItemRes_ref' (W : World) (rec : PlainRec) (env : Env) (st : PSt) (r
 theorem plainItemRes_callArgs' (W : World) (rec : PlainRec) (env : Env) (st : PSt) (results : List RVal) (f : String)
     (args kwargs rtA rtK) (l : Nat) :
     plainItemRes W rec env st results (.callArgs f args kwargs rtA rtK l) =
-      callRes W rec st f (zipArgs results env args rtA) (zipKw results env kwargs rtK) none false := by
+      callRes W rec st f (zipArgs results env args rtA) (zipKw results env kwargs rtK) none true := by
   simp only [plainItemRes, callRes]
   cases W.find f with
   | none => rfl
@@ -781,7 +786,7 @@ theorem lockstep (U : Universe) {m : Nat} {fuel1 fuel2 : Nat} (hSS : SS U m fuel
       obtain ⟨g1, c1, n1, a, rf1, hc1, e1⟩ := plain_inv (by simpa [visitItem] using hv1)
       obtain ⟨g2, c2, n2, b, rf2, hc2, e2⟩ := plain_inv (by simpa [visitItem] using hv2)
       rw [plainItemRes_callArgs', plainItemRes_callArgs']
-      exact one a b a b g1 g2 c1 c2 n1 n2 rf1 rf2 f args kwargs line _ _ none false s1.seen hc1 hc2 (by rw [e1]) (by rw [e2]) rfl rfl rfl
+      exact one a b a b g1 g2 c1 c2 n1 n2 rf1 rf2 f args kwargs line _ _ none true s1.seen hc1 hc2 (by rw [e1]) (by rw [e2]) rfl rfl rfl
         (by rw [e1]) (by rw [e2, hseen]) hsv
     | keep path f args kwargs rtA rtK line =>
       obtain ⟨g1, c1, n1, a, rf1, hc1, _, e1⟩ := keep_inv hv1
